@@ -45,6 +45,9 @@ type UEntry struct {
 	Fin        bool // every incarnation carries metadata.finalizers [finalizerName]; nobody removes it
 }
 
+// Referable: a dependency annotation can name the identifier (it has a kind and a name).
+func (u UEntry) Referable() bool { return u.Meta.Name != "" && u.Meta.GroupKind.Kind != "" }
+
 type Universe []UEntry
 
 func optNat(i int) string {
